@@ -210,6 +210,7 @@ func (w *World) GenVC(fn *ssa.Function, ct *Contract, opts ...func(*Engine)) (re
 	if ct != nil {
 		ctx := &evalCtx{e: e, f: fr, st: exit, old: fr.entry, results: rets, bound: map[string]EV{}, pkg: typesPkgOf(fn)}
 		e.bindLets(ctx)
+		var earlier []*smt.Term
 		for i, cl := range ct.Ensures {
 			t := ctx.boolean(cl.Expr, cl.Text)
 			// A ==> (B && C) is checked as A ==> B and A ==> C: smaller queries, same meaning
@@ -221,6 +222,10 @@ func (w *World) GenVC(fn *ssa.Function, ct *Contract, opts ...func(*Engine)) (re
 				}
 				o := e.oblige(exit, "post", label, pt, fmt.Sprintf("%s:%d", strings.TrimPrefix(ct.File, "/repo/"), cl.Line), "ensures "+cl.Text)
 				o.Inputs = append(append([]NamedTerm{}, res.Params...), resultTerms(rets)...)
+				o.Lemmas = append([]*smt.Term{}, earlier...)
+				if o.Cond != nil {
+					earlier = append(earlier, o.Cond)
+				}
 			}
 		}
 		if ct.HasAssigns && !ct.AssignsAssumed {
